@@ -514,8 +514,9 @@ Proof.
   unfold Parser.pvar. intros H. bdn H as ds r1 E. bdn H as sc r2 E2.
   apply consume_ok in E2. destruct E2 as (-> & Ks & _).
   apply pvardecls_sound in E. destruct E as (_ & Hne & W & y & Py & Y).
-  exists ds, y. split; [|split; [exact Hne|split; [exact W|split; [exact Y|sympre]]]].
-  destruct ds as [|d [|d2 ds']]; inv H; reflexivity.
+  assert (Hs : s = var_stmt ds /\ r = r2) by (destruct ds as [|d [|d2 ds']]; inv H; split; reflexivity).
+  destruct Hs as (-> & ->).
+  exists ds, y. split; [reflexivity|split; [exact Hne|split; [exact W|split; [exact Y|sympre]]]].
 Qed.
 
 Lemma pexprstmt_sound f ts s r :
@@ -684,11 +685,12 @@ Proof.
       bdn H as rp r3 E3. apply consume_ok in E3. destruct E3 as (-> & Krp & _).
       bdn H as th r4 E4. destruct (Is _ _ _ E4) as ((Wt & yt & Pt & Yt) & Dt & Ot).
       destruct (check TELSE r4) eqn:C.
-      * pose proof C as C'. apply check_true in C'. destruct C' as (tel & r4' & -> & Kel). cbn [tl] in H.
+      * assert (Oth : open_if (erase_s th) = false).
+        { destruct (open_if (erase_s th)); [|reflexivity]. specialize (Ot eq_refl). congruence. }
+        apply check_true in C. destruct C as (tel & r4' & -> & Kel). cbn [tl] in H.
         bdn H as el r5 E5. inv H. destruct (Is _ _ _ E5) as ((We & ye & Pe & Ye) & De & Oe).
         cbn [erase_s is_decl open_if]. split; [|split; [reflexivity|exact Oe]]. split.
-        -- apply WFs_ifelse; try assumption.
-           destruct (open_if (erase_s th)); [|reflexivity]. specialize (Ot eq_refl). congruence.
+        -- apply WFs_ifelse; assumption.
         -- eexists. split; [|apply YS_ifelse; eassumption]. sympre.
       * inv H. cbn [erase_s is_decl open_if]. split; [|split; [reflexivity|intros _; exact C]]. split.
         -- apply WFs_if; assumption.
